@@ -168,6 +168,10 @@ def nonempty_entry(entry):
     if c[0] == "cmp" and c[2][0] == "call" and c[2][1] == ("global", "len") and len(c[2][2]) == 1 and c[3] == _LEN0:
         if (c[1] == "==" and not pol) or (c[1] in ("!=", ">") and pol):
             return c[2][2][0]
+        return None
+    # `if s:` on a collection-valued term (a set expression, a dict / list built here) is the same test
+    if pol and c[0] in ("bin", "dict", "list", "set", "comp", "loopout") or (pol and c[0] == "call" and c[1][0] == "global" and c[1][1] in ("set", "list", "dict", "frozenset", "sorted")):
+        return c
     return None
 
 
@@ -193,6 +197,62 @@ def _unmask(v, mask):
     """x[mask] inside the value assigned under the same mask reads as x (element-wise at full length)"""
     hits = {x: x[1] for x in walk(v) if x[0] == "sub" and x[2] == mask}
     return subst(v, hits) if hits else v
+
+
+def _synonym(ft, args, kws):
+    """pandas / numpy spellings of one operation -> one term (None: not a synonym this table knows)"""
+    kw = dict(kws)
+    name = ft[2] if ft[0] == "attr" else (ft[1] if ft[0] == "global" else None)
+    if ft[0] == "attr":
+        x = ft[1]
+        if name == "ravel" and not args and not kws:
+            return ("call", ("attr", x, "flatten"), (), ())
+        if name == "round" and not (x[0] == "global"):
+            d = args[0] if args else kw.get("decimals", ("const", 0))
+            if len(args) <= 1 and set(kw) <= {"decimals"}:
+                return ("call", ("attr", x, "round"), (), (("decimals", d),))
+        if name in ("isna", "notna") and not args and not kws:
+            return ("call", ("attr", x, {"isna": "isnull", "notna": "notnull"}[name]), (), ())
+        if name == "clip" and x[0] != "global" and len(args) <= 2 and set(kw) <= {"min", "max", "lower", "upper"}:
+            lo = args[0] if args else kw.get("min", kw.get("lower", ("const", None)))
+            hi = args[1] if len(args) > 1 else kw.get("max", kw.get("upper", ("const", None)))
+            return ("call", ("global", "numpy.clip"), (x, lo, hi), ())
+        if name == "agg" and args == (("const", "sum"),) and not kws and x[0] == "call" and x[1][0] == "attr" and x[1][2] == "groupby":
+            return ("call", ("attr", x, "sum"), (), ())
+        if name == "merge" and "left_on" in kw and kw.get("left_on") == kw.get("right_on") and "on" not in kw:
+            k2 = tuple(sorted([(a_, b_) for a_, b_ in kws if a_ not in ("left_on", "right_on")] + [("on", kw["left_on"])], key=lambda kv: kv[0]))
+            return ("call", ft, args, k2)
+        if name == "drop" and kw.get("columns", ("x",))[0] == "const" and isinstance(kw["columns"][1], str):
+            k2 = tuple((a_, ("list", (b_,)) if a_ == "columns" else b_) for a_, b_ in kws)
+            return ("call", ft, args, k2)
+        return None
+    if ft[0] == "global":
+        if name in ("numpy.round", "numpy.around", "numpy.round_") and args and len(args) <= 2 and set(kw) <= {"decimals"}:
+            d = args[1] if len(args) > 1 else kw.get("decimals", ("const", 0))
+            return ("call", ("attr", args[0], "round"), (), (("decimals", d),))
+        if name in ("pandas.isnull", "pandas.isna", "pandas.notnull", "pandas.notna") and len(args) == 1 and not kws:
+            return ("call", ("attr", args[0], "isnull" if name.endswith(("isnull", "isna")) else "notnull"), (), ())
+        if name == "numpy.clip" and len(args) + len(kw) <= 3 and set(kw) <= {"a_min", "a_max"} and args:
+            lo = args[1] if len(args) > 1 else kw.get("a_min", ("const", None))
+            hi = args[2] if len(args) > 2 else kw.get("a_max", ("const", None))
+            return None if (len(args) == 3 and not kws) else ("call", ft, (args[0], lo, hi), ())
+        if name == "pandas.concat" and kw.get("axis") == ("const", 0):
+            return ("call", ft, args, tuple(kv for kv in kws if kv[0] != "axis"))
+        if name == "pandas.concat" and kw.get("ignore_index") == ("const", True) and kw.get("axis", ("const", 0)) == ("const", 0):
+            inner = ("call", ft, args, tuple(kv for kv in kws if kv[0] not in ("ignore_index", "axis")))
+            return ("call", ("attr", inner, "reset_index"), (), (("drop", ("const", True)),))
+        if name == "numpy.reshape" and len(args) == 2 and not kws and args[1][0] == "tuple":
+            return ("call", ("attr", args[0], "reshape"), args[1][1], ())
+    return None
+
+
+def column_ref(t):
+    """frame.name / frame['name'] -> (frame, 'name'): attribute-style and subscript-style column reads are one thing; else None"""
+    if t[0] == "attr" and isinstance(t[2], str):
+        return t[1], t[2]
+    if t[0] == "sub" and t[2][0] == "const" and isinstance(t[2][1], str):
+        return t[1], t[2][1]
+    return None
 
 
 def own_conditions(summary, pc):
@@ -225,6 +285,39 @@ class Builder:
     def summarize(self, func: FuncInfo, bindings=None, env=None, depth=0, self_cls=None):
         ev = _Eval(self, func, bindings or {}, env, depth, self_cls)
         return ev.run()
+
+    _PANDAS_ATTRS = {"values", "index", "columns", "loc", "iloc", "shape", "T", "empty", "size", "dtype", "dtypes", "str", "dt", "at", "iat", "name",
+                     "lower", "upper", "conformalization", "data", "model", "seed", "rng"}
+
+    def column_vocab(self):
+        """names used as constant column subscripts somewhere in the package (frame["name"]) and never as an attribute of self or as a
+        method: an attribute read of such a name on a data term is a column read"""
+        if getattr(self, "_colvocab", None) is None:
+            subs, attrs_of_self, methods = set(), set(), set()
+            for m in self.repo.modules.values():
+                for n in ast.walk(m.tree):
+                    if isinstance(n, ast.Subscript) and isinstance(n.slice, ast.Constant) and isinstance(n.slice.value, str) and n.slice.value.isidentifier():
+                        subs.add(n.slice.value)
+                    elif isinstance(n, ast.Attribute) and isinstance(n.value, ast.Name) and n.value.id == "self":
+                        attrs_of_self.add(n.attr)
+                    elif isinstance(n, ast.Call) and isinstance(n.func, ast.Attribute):
+                        methods.add(n.func.attr)
+                    elif isinstance(n, (ast.FunctionDef, ast.AsyncFunctionDef)):
+                        methods.add(n.name)
+                    elif isinstance(n, ast.keyword) and n.arg == "columns" and isinstance(n.value, (ast.List, ast.Tuple)):
+                        subs |= {x.value for x in n.value.elts if isinstance(x, ast.Constant) and isinstance(x.value, str) and x.value.isidentifier()}
+                    elif isinstance(n, ast.Dict):
+                        pass
+            import os
+            fixed = set()
+            try:
+                fixed = {l.strip() for l in open(os.path.join(os.path.dirname(os.path.abspath(__file__)), "known_columns.txt")) if l.strip()}
+            except OSError:
+                pass
+            # the fixed list: every name the reference tree reads attribute-style as a column (so that the canonical form of a known
+            # column does not depend on how the tree at hand happens to spell it); plus the names this tree subscripts with
+            self._colvocab = fixed | (subs - attrs_of_self - methods - self._PANDAS_ATTRS)
+        return self._colvocab
 
     def lambda_apply(self, lam_term, args):
         """Term of a lambda body with its parameters bound to `args` (list of terms)."""
@@ -620,9 +713,14 @@ class _Eval:
                 return self.attrs[e.attr]
             return ("attr", ("param", "self"), e.attr)
         v = self.expr(e.value)
+        if e.attr == "empty" and not (isinstance(getattr(e, "_parent", None), ast.Call) and e._parent.func is e) and v[0] in ("sub", "call", "param", "phi", "loopout", "setitem"):
+            return ("cmp", "==", ("call", ("global", "len"), (v,), ()), ("const", 0))  # frame.empty is len(frame) == 0
         nt = self._namedtuple_field(v, e.attr)
         if nt is not None:
             return nt
+        if e.attr in self.b.column_vocab() and v[0] not in ("global", "const") and v != ("param", "self") \
+                and not (isinstance(getattr(e, "_parent", None), ast.Call) and e._parent.func is e) and isinstance(e.ctx, ast.Load):
+            return ("sub", v, ("const", e.attr))  # frame.name and frame["name"] read the same column: one spelling (the subscript)
         if v[0] == "global":
             r = self.b.repo.resolve_dotted(v[1].replace(":", ".") + "." + e.attr) if ":" not in v[1] else None
             if r is not None and r[0] in ("class", "func"):
@@ -642,7 +740,22 @@ class _Eval:
             return nrows(v[1])  # x.shape[0] and len(x) are the same number: one canonical spelling
         if k[0] == "slice" and v[0] == "attr" and v[2] == "iloc":
             return ("sub", v[1], k)  # frame.iloc[a:b] and frame[a:b] are the same positional row slice
+        if v[0] == "attr" and v[2] == "loc" and isinstance(e.ctx, ast.Load):
+            ALL = ("slice", ("const", None), ("const", None), ("const", None))
+            if k[0] == "tuple" and len(k[1]) == 2 and k[1][0] == ALL:
+                return ("sub", v[1], k[1][1])  # frame.loc[:, cols] is frame[cols]
+            if k[0] == "tuple" and len(k[1]) == 2 and k[1][1] == ALL:
+                return ("sub", v[1], k[1][0]) if _is_mask(k[1][0]) or self._mask_valued(k[1][0]) else ("sub", v, k)
+            if k[0] != "tuple" and (_is_mask(k) or self._mask_valued(k)):
+                return ("sub", v[1], k)  # frame.loc[mask] is frame[mask]
+        if k[0] == "tuple" and len(k[1]) == 2 \
+                and k[1][0] == ("slice", ("const", None), ("const", None), ("const", None)) and k[1][1] == ("const", None):
+            return ("call", ("attr", v, "reshape"), (("const", -1), ("const", 1)), ())  # x[:, None] of a vector is x.reshape(-1, 1)
         return index(v, k)
+
+    def _mask_valued(self, k):
+        """a name whose value is an element-wise truth vector (the mask kept in a variable)"""
+        return False
 
     def e_Slice(self, e):
         f = lambda x: self.expr(x) if x is not None else ("const", None)  # noqa: E731
@@ -783,6 +896,11 @@ class _Eval:
         self.sum.effects.append((self.pc, ("call", ("global", "yield"), (t,), ()), e))
         return ("unknown", "yield")
 
+    def e_YieldFrom(self, e):
+        t = self.expr(e.value)
+        self.sum.effects.append((self.pc, ("call", ("global", "yield"), (("starred", t),), ()), e))
+        return ("unknown", "yield")
+
     def e_Await(self, e):
         return self.expr(e.value)
 
@@ -864,6 +982,9 @@ class _Eval:
             if (el[0] == "call" and el[1][0] == "attr" and el[1][2] in ("startswith", "endswith") and len(el[2]) == 1 and not el[3]
                     and not any(x[0] == "elem" and len(x) == 3 and x[2] == c_[4] for x in walk(el[1][1]))):
                 return ("call", ("attr", el[1][1], el[1][2]), (("call", ("global", "tuple"), (("comp", "gen", el[2][0], c_[3], c_[4]),), ()),), ())
+        syn = _synonym(ft, args, kws)
+        if syn is not None:
+            return syn
         if ft == ("global", "numpy.flatnonzero") and len(args) == 1 and not kws:
             return ("sub", ("call", ("global", "numpy.where"), args, ()), ("const", 0))  # positions of the true entries of a vector: one spelling
         if ft[0] == "attr" and ft[2] == "to_numpy" and not args and not kws:
@@ -959,12 +1080,14 @@ def _new_constant_value(module, name):
     """a module-level NAME = <literal> that did not exist when the rules were written (a magic number moved to module level) reads as the
     literal itself; constants the rules know by name (S3_FILE_PATH, BASELINE_PREFIX ..) stay symbolic"""
     k = _known_functions()
-    if not k or f"const {module.name}:{name}" in k:
-        return None
     node = module.constants.get(name)
     try:
         v = ast.literal_eval(node)
     except Exception:
+        return None
+    # a string constant is its text wherever it is used to build a name (RESULTS_PREFIX + e, f"{BASELINE_PREFIX}{e}"): always folded.
+    # Other known constants (lists, numbers the rules refer to by name) stay symbolic.
+    if not isinstance(v, str) and (not k or f"const {module.name}:{name}" in k):
         return None
 
     def lit(x):
